@@ -123,23 +123,18 @@ def run(ctx, rep):
     # --- having: one interpreter for all value families, one after the other and each twice, as in one process -- members of
     # different value enums are different objects even when their names agree, so a result (or a cache) from one family must not
     # leak into another
+    from ..bind import bound_class as _bc20
+    ValC = _bc20(m, it, ClassRef(MODELS, 'Mval'), only=('__eq__', '__hash__'), with_eq=True)
+    ValC.__repr__ = lambda s_: f'<{s_.name}>'
+    rep.consult(m.relfile(MODELS) + ' Mval.__eq__ / __hash__')
     for rnd in (1, 2):
         for fam, valset in enumerate((('F', 'N', 'T'), ('F', 'B', 'T'), ('F', 'N', 'B', 'T'), ('F', 'T'))):
-            class Val(str):
-                "a member of this family's value enum: str(v) is its name, equality is by family and name"
-                def __new__(cls, name, fam_=fam):
-                    o = super().__new__(cls, name)
-                    o.fam = fam_
-                    return o
-
-                def __eq__(self, other):
-                    return isinstance(other, str) and getattr(other, 'fam', None) == self.fam and str.__eq__(self, other)
-
-                def __ne__(self, other):
-                    return not self.__eq__(other)
-                __hash__ = str.__hash__
-            members_ = {n_: Val(n_) for n_ in valset}
-
+            # members of this family's value enum: Mval's own __eq__ / __hash__ (folded from source) on distinct objects
+            members_ = {}
+            for n_ in valset:
+                v_ = ValC()
+                v_.name, v_.value = n_, {'F': 0.0, 'N': 0.25, 'B': 0.75, 'T': 1.0}[n_]
+                members_[n_] = v_
             class Values:
                 def get(self, k, d=None, members_=members_):
                     return members_.get(str(k), d)
@@ -151,7 +146,7 @@ def run(ctx, rep):
             for ask, wanted in ((('T', 'B'), {'T', 'B'}), (('B', 'F'), {'B', 'F'})):
                 pi = PI('interpretation', __srcclass__=(m, ClassRef(MODELS, 'PredicateInterpretation')), model=Obj('model', values=Values()))
                 r = it.generate(f('PredicateInterpretation.having'), [pi, *ask])
-                want = [k for k, v in mapping.items() if str(v) in wanted]
+                want = [k for k, v in mapping.items() if v.name in wanted]
                 ok = r == want
                 rep.instance(R2, ok=ok, nontrivial=('having', valset, ask, rnd))
                 if not ok:
